@@ -19,8 +19,10 @@ def run(F, tier):
     r = headers.h1(rep, F)
     headers.h3(rep, F)
     r2 = headers.h2(rep, F)
+    headers.h4(rep, F)
     fieldfmt.u3(rep, F, "headers")
     rep.sample({"tags": r.get("tags")})
     rep.sample({"assembly": r2.get("sequence")})
     accept.u6(rep, F, "headers")
+    accept.u6(rep, F, "blocks")
     return rep
